@@ -61,8 +61,8 @@ var specs = []fieldSpec{
 	{"bool", pgen.F(sc(pgen.Bool), pgen.Plain), []tmpl{{"true", val(true)}}, nil},
 	{"string", pgen.F(sc(pgen.String), pgen.Plain), []tmpl{{`"tmpl"`, val("tmpl")}, {`"` + strings.Repeat("z", 200) + `"`, val(strings.Repeat("z", 200))}}, nil},
 	{"bytes", pgen.F(sc(pgen.Bytes), pgen.Plain), []tmpl{{`"raw"`, val([]byte("raw"))}}, nil},
-	{"float32", pgen.F(sc(pgen.Float32), pgen.Plain), []tmpl{{"1.5", val(float32(1.5))}}, nil},
-	{"float64", pgen.F(sc(pgen.Float64), pgen.Plain), []tmpl{{"-2.25", val(float64(-2.25))}}, nil},
+	{"float32", pgen.F(sc(pgen.Float32), pgen.Plain), []tmpl{{"1.5", val(float32(1.5))}, {"-0.0", val(float32(math.Copysign(0, -1)))}}, nil},
+	{"float64", pgen.F(sc(pgen.Float64), pgen.Plain), []tmpl{{"-2.25", val(float64(-2.25))}, {"-0.0", val(math.Copysign(0, -1))}}, nil},
 	{"sint32", pgen.F(enc(pgen.Int32, "zigzag32"), pgen.Plain), []tmpl{{"-3", val(int32(-3))}, {"5", val(int32(5))}}, &bitor{proto.BitOr[int32]{}, 0x10}},
 	{"sint64", pgen.F(enc(pgen.Int64, "zigzag64"), pgen.Plain), []tmpl{{"-3", val(int64(-3))}}, &bitor{proto.BitOr[int64]{}, 0x10}},
 	{"*int32", pgen.F(sc(pgen.Int32), pgen.Ptr), []tmpl{{"9", func() reflect.Value { x := int32(9); return reflect.ValueOf(&x) }}}, nil},
@@ -79,6 +79,8 @@ var specs = []fieldSpec{
 	{"[]nested", pgen.F(inner, pgen.Slice), []tmpl{{`[{"F0":1,"F1":"x"},{"F0":2,"F1":"y"}]`, nil}, {`[{"F0":3,"F1":"z"}]`, nil}}, nil},
 	{"fixed32", pgen.F(enc(pgen.Uint32, "fixed32"), pgen.Plain), []tmpl{{"7", val(uint32(7))}, {"4294967295", val(uint32(math.MaxUint32))}}, &bitor{proto.BitOr[uint32]{}, 0x01000010}},
 	{"fixed64", pgen.F(enc(pgen.Uint64, "fixed64"), pgen.Plain), []tmpl{{"7", val(uint64(7))}}, &bitor{proto.BitOr[uint64]{}, 1 << 60}},
+	{"sfixed32", pgen.F(enc(pgen.Int32, "fixed32"), pgen.Plain), []tmpl{{"5", val(int32(5))}, {"-3", val(int32(-3))}, {"-2147483648", val(int32(math.MinInt32))}}, &bitor{proto.BitOr[int32]{}, 8}},
+	{"sfixed64", pgen.F(enc(pgen.Int64, "fixed64"), pgen.Plain), []tmpl{{"-3", val(int64(-3))}, {"9223372036854775807", val(int64(math.MaxInt64))}}, &bitor{proto.BitOr[int64]{}, 1 << 33}},
 	{"map[string]int32", pgen.MapF(pgen.String, sc(pgen.Int32)), []tmpl{{`{"k":5}`, val(map[string]int32{"k": 5})}, {`{"k":5,"l":6}`, val(map[string]int32{"k": 5, "l": 6})}}, nil},
 	{"map[string]string", pgen.MapF(pgen.String, sc(pgen.String)), []tmpl{{`{"k":"v"}`, val(map[string]string{"k": "v"})}}, nil},
 }
@@ -394,9 +396,9 @@ func templates(c *explore.Ctx) {
 			g := got.Elem().Field(fi)
 			mask := ch[fi].mask
 			first := uint64(3) // the earlier occurrence written by input kind 2 (varint 3 / fixed 0x09090909..)
-			if strings.HasPrefix(specs[idx[fi]].name, "fixed32") {
+			if strings.HasPrefix(specs[idx[fi]].name, "fixed32") || strings.HasPrefix(specs[idx[fi]].name, "sfixed32") {
 				first = 0x09090909
-			} else if strings.HasPrefix(specs[idx[fi]].name, "fixed64") {
+			} else if strings.HasPrefix(specs[idx[fi]].name, "fixed64") || strings.HasPrefix(specs[idx[fi]].name, "sfixed64") {
 				first = 0x0909090909090909
 			} else if strings.HasPrefix(specs[idx[fi]].name, "sint") {
 				first = ^uint64(1) // -2: zig-zag 3
